@@ -116,6 +116,9 @@ type rig struct {
 	badTmpl map[int]string
 	// File contents whose blob is missing or corrupted.
 	badContent map[int]string
+	// Templates with two names differing only by case, on a case
+	// insensitive mount: inaccessible whatever is stored in the CAS.
+	caseBad map[int]bool
 
 	marking  bool // true while predict() runs for an executed step
 	repairFn func() ([]int, []int)
@@ -146,6 +149,7 @@ func newRig(w *world, mat *materialized) *rig {
 		root:        &mnode{kind: kindDir, tmpl: -1, expanded: true, visited: true, children: map[string]*mnode{}},
 		badTmpl:     map[int]string{},
 		badContent:  map[int]string{},
+		caseBad:     map[int]bool{},
 		occExpanded: map[int]int{},
 		merged:      map[int]bool{},
 		refusedBy:   map[string]int{},
